@@ -308,6 +308,35 @@ def c14Step (st : St) (op impl : String) : St × String × String :=
         | _ => "viol:unparseable-output"
       (st, out, verdict)
     | _, _, _, _ => (st, "bad-op", "ok")
+  | ["firstrace", s, first, ents] =>
+    match s.toNat?, first.toNat? with
+    | some s, some first =>
+      match parseOpEnts first ents with
+      | some es =>
+        if s ≥ 3 ∨ first < 1 ∨ first + es.length ≥ 9223372036854775808 then (st, "bad-op", "ok") else
+        let sc := st.get s
+        let raced := sc.p.d.logMeta.isNone
+        let (p, ptxt) := match sc.p.firstReadRace es with
+          | .ok p => (p, "ok")
+          | .error e => (sc.p, errStr e)
+        let m := sc.m.save none none es
+        let (p, pr) := p.reads
+        let out := s!"P={ptxt} {renderReads pr} M=ok {renderReads m.reads}"
+        -- judge: with a valid history so far the entries just acknowledged must be visible through the meta
+        let verdict :=
+          match fields impl with
+          | [_, a, b, c, d, e, f, _, _, _, _, _, _, _] =>
+            match parseReads [a, b, c, d, e, f] with
+            | some r =>
+              if sc.valid ∧ validSave sc.m none none es ∧ !r.contiguous then
+                (if raced then "viol:stale-meta-after-first-read-race" else "viol:not-contiguous")
+              else "ok"
+            | none => "viol:unparseable-output"
+          | _ => "viol:unparseable-output"
+        let pd := " ".intercalate (((fields impl).drop 1).take 6)
+        (st.set s { sc with p := p, m := m, valid := false, lastDump := pd }, out, verdict)
+      | none => (st, "bad-op", "ok")
+    | _, _ => (st, "bad-op", "ok")
   | ["term", s, i] =>
     match s.toNat?, i.toNat? with
     | some s, some i =>
